@@ -399,9 +399,19 @@ pub fn run(ctx: &mut Ctx) {
     ctx.stage("truthiness", pool.len() as u64, false, |idx, _rng, rep| {
         let v = &pool[idx as usize];
         let t = truthy(v);
-        let contexts: [(&str, &str, CelValue); 9] = [
+        let contexts: [(&str, &str, CelValue); 18] = [
             ("ternary", "{} ? 1 : 0", (if t { 1 } else { 0 }).into()),
             ("not", "!{}", (!t).into()),
+            // runs of `!`: each operator negates the truthiness of what it is applied to, so the result is a bool
+            ("not-not", "!!{}", t.into()),
+            ("not-x3", "!!!{}", (!t).into()),
+            ("not-x4", "!!!!{}", t.into()),
+            ("not-spaced", "! ! {}", t.into()),
+            ("not-nested", "!(!({}))", t.into()),
+            ("not-not-in-list", "[!!{}][0]", t.into()),
+            ("not-not-eq", "!!{} == true", t.into()),
+            ("not-of-ternary", "!({} ? {} : {})", (!t).into()),
+            ("or-self", "{} || {}", t.into()),
             ("or-false", "{} || false", t.into()),
             ("and-true", "{} && true", t.into()),
             ("all", "[{}].all(x, x)", t.into()),
